@@ -109,12 +109,17 @@ def gen_random(rng):
             elif state[p] == "live":
                 hist.append(("vanish", p))
                 state[p] = "free"
-        elif r < 0.52:
+        elif r < 0.50:
             hist.append(("new", p))
             if state[p] != "free":
                 nh += 1
+        elif r < 0.52:
+            hist.append(("newp", p))
+            nh += 1
         elif nh == 0:
             continue
+        elif r < 0.57:
+            hist.append((rng.choice(["osenter", "osenter", "osexit"]), rng.randrange(nh)))
         elif r < 0.60:
             hist.append(("isrun", rng.randrange(nh)))
         elif r < 0.66:
@@ -196,7 +201,7 @@ def run_history(hist, acc, with_pid0=False):
     with w:
         for op in hist:
             op = tuple(op)
-            if op[0] in ("isrun", "q", "sig", "set"):
+            if op[0] in ("isrun", "q", "sig", "set", "osenter", "osexit"):
                 hi = op[1]
                 if hi == -1:
                     hi = len(w.handles) - 1
@@ -280,6 +285,18 @@ def pid0_histories():
 
 def signo_histories():
     out = []
+    # guards served from a cache / skipped for special object kinds must still see a recycled pid
+    for kind, signo in (("kill", None), ("terminate", None), ("suspend", None), ("send_signal", 10)):
+        for z in (False, True):
+            # identity check inside an open oneshot() block, then the pid is recycled, then the signal - all in the block
+            for pre in ([("isrun", 0)], [("q", 0, "ppid")], [("set", 0, "nice", 3)], [("sig", 0, "resume", None)]):
+                out.append([("spawn", 7, False), ("new", 7), ("osenter", 0)] + pre + [("vanish", 7), ("spawn", 7, z),
+                           ("sig", 0, kind, signo), ("set", 0, "nice", 7), ("osexit", 0), ("sig", 0, kind, signo)])
+            # psutil.Popen objects whose child was reaped elsewhere (returncode still None)
+            out.append([("spawn", 7, False), ("newp", 7), ("sig", 0, kind, signo), ("vanish", 7), ("spawn", 7, z), ("sig", 0, kind, signo),
+                        ("set", 0, "nice", 5), ("set", 0, "ionice", [2, 3]), ("set", 0, "affinity", [0]), ("set", 0, "rlimit", [7, [5, 9]])])
+            out.append([("spawn", 7, False), ("newp", 7), ("isrun", 0), ("exit", 7), ("reap", 7), ("spawn", 7, z), ("q", 0, "name"),
+                        ("sig", 0, kind, signo)])
     for s in SIGNOS:
         out.append([("spawn", 7, False), ("new", 7), ("sig", 0, "send_signal", s), ("vanish", 7),
                     ("spawn", 7, False), ("sig", 0, "send_signal", s)])
